@@ -355,7 +355,8 @@ impl Walrus {
                 let mut block_limit = DEFAULT_BLOCK_SIZE;
                 if md.next_block_start > block_offset {
                     let span = md.next_block_start - block_offset;
-                    if span % DEFAULT_BLOCK_SIZE == 0 && block_offset + span <= MAX_FILE_SIZE {
+                    if span % DEFAULT_BLOCK_SIZE == 0 && block_offset + span <= MAX_FILE_SIZE.min(file_len)
+                    {
                         block_limit = span;
                     }
                 }
